@@ -51,31 +51,33 @@ Proof.
 Qed.
 Print Assumptions C11_check_implies_drf.
 
-(* the generated obligation: the table extracted from today's source keeps the discipline, apart from
-   exactly the recorded pairs *)
-Theorem C11_discipline_holds : check_except known_pairs lock_table = true.
+(* the generated obligation: the table extracted from today's source keeps the discipline - the WHOLE
+   table, no pair is excepted (Known.known_pairs = []) *)
+Theorem C11_discipline_holds : check lock_table = true.
 Proof. vm_compute. reflexivity. Qed.
 Print Assumptions C11_discipline_holds.
 
-(* hence: every execution of the machine over the generated table is free of data races except
-   between recorded pairs *)
+(* hence: every execution of the machine over the generated table is free of data races *)
 Theorem C11_source_table_drf : forall tr p t1 s1 q t2 s2 r,
   wf tr -> conform lock_table tr ->
   tr = p ++ (t1, Acc s1) :: q ++ (t2, Acc s2) :: r ->
   conflict s1 s2 = true ->
-  hb tr (List.length p) (List.length p + 1 + List.length q) \/ is_known known_pairs s1 s2 = true.
+  hb tr (List.length p) (List.length p + 1 + List.length q).
 Proof.
   intros tr p t1 s1 q t2 s2 r W F E X.
-  exact (lockset_sound known_pairs lock_table tr p t1 s1 q t2 s2 r C11_discipline_holds W F E X).
+  destruct (lockset_sound [] lock_table tr p t1 s1 q t2 s2 r C11_discipline_holds W F E X) as [H|H];
+    [exact H|discriminate H].
 Qed.
 Print Assumptions C11_source_table_drf.
 
-(* refuted: the full discipline does NOT hold of today's table, and every recorded pair is a
-   conflicting, incompatible pair of sites of it (a recorded pair that the code no longer has
-   breaks this theorem, so the list cannot go stale silently) *)
-Theorem C11_discipline_refuted : check lock_table = false /\ known_is_violation lock_table known_pairs = true.
-Proof. split; vm_compute; reflexivity. Qed.
-Print Assumptions C11_discipline_refuted.
+(* refuted (v0, before the fix commits 07396f3 and 5a77f27): the sites as they were recorded
+   (Known.sites_v0: the rng advanced under the read lock only, the unguarded trailer) fail the check,
+   and every recorded pair is a conflicting, incompatible pair of those sites; the same sites as
+   extracted after the repairs (sites_v1: rngMu / trailerM held exclusively) pass it. *)
+Theorem C11_discipline_v0_refuted :
+  check table_v0 = false /\ known_is_violation table_v0 known_pairs_v0 = true /\ check table_v1 = true.
+Proof. split; [|split]; vm_compute; reflexivity. Qed.
+Print Assumptions C11_discipline_v0_refuted.
 
 (* refuted, at the level of executions: a write made under a read lock only (the shape of the rng
    site) has a well-formed conforming execution in which two writes are not ordered *)
